@@ -5,7 +5,7 @@ from . import compiled_common as CC
 
 ID = "C01"
 PROFILES = ["default", "fast"]
-FAMS = ["B", "I1", "S", "T", "R"]
+FAMS = ["B", "I1", "S", "T", "R", "M"]
 TT_MAX_N = 4
 
 META = {
